@@ -675,8 +675,16 @@ func (s *Service) handleBackup(w http.ResponseWriter, r *http.Request, qp QueryP
 	}
 	addBackupFormatHeader(w, qp)
 
-	addr, err := s.proxy.Backup(r.Context(), br, w, makeCredentials(r), qp.Timeout(defaultTimeout), qp.Redirect())
+	cw := &countingWriter{w: w}
+	addr, err := s.proxy.Backup(r.Context(), br, cw, makeCredentials(r), qp.Timeout(defaultTimeout), qp.Redirect())
 	if err != nil {
+		if cw.n > 0 {
+			// Part of the backup has been sent, so the status can no longer
+			// be changed. Abort the response so the client sees a failed
+			// transfer, not a complete backup.
+			s.logger.Printf("backup failed after %d bytes were sent: %s", cw.n, err.Error())
+			panic(http.ErrAbortHandler)
+		}
 		if errors.Is(err, proxy.ErrNotLeader) {
 			s.DoRedirect(w, r, qp)
 			return
@@ -700,6 +708,18 @@ func (s *Service) handleBackup(w http.ResponseWriter, r *http.Request, qp QueryP
 	w.Header().Set(ServedByHTTPHeader, addr)
 
 	s.lastBackup = time.Now()
+}
+
+// countingWriter counts the bytes written through it.
+type countingWriter struct {
+	w io.Writer
+	n int64
+}
+
+func (c *countingWriter) Write(p []byte) (int, error) {
+	n, err := c.w.Write(p)
+	c.n += int64(n)
+	return n, err
 }
 
 // handleLoad loads the database from the given SQLite database file or SQLite dump.
